@@ -18,6 +18,6 @@ for line in sys.stdin:
     if not m:
         continue
     prop, rule, _, rest = m.groups()
-    if any(prop == a and rule == b and rest.startswith(c) for a, b, c in res):
+    if any(prop == a and (b == '*' or rule == b) and (c == '-' or rest.startswith(c)) for a, b, c in res):
         continue
     sys.stdout.write(line)
